@@ -164,6 +164,9 @@ class CliHarness:
         if w.between and not w.inflight:
             base.append("finish")
         base += ["disc", "force", "cmd", "sub", "req"]
+        if w.alive or any(k in ("finish", "connect") for k in w.inflight.values()):
+            # a redundant finish_connection(): the session is alive, or the second connect phase is already running
+            base.append("refinish")
         io: list[Any] = []
         conning = w.net.connecting()
         if conning:
@@ -190,6 +193,11 @@ class CliHarness:
         io = False
         if label in ("start", "connect", "finish"):
             self._attempt(w, label)
+        elif label == "refinish":
+            # whatever this call does (it is expected to be refused), it changes nothing: the session stays alive, the running
+            # attempt stays in progress - so a later start must still be refused and commands must still be served
+            w.counter += 1
+            w.spawn(f"refinish#{w.counter}", lambda: w.client.finish_connection(login=w.login))
         elif label in ("disc", "force"):
             w.counter += 1
             name = f"{label}#{w.counter}"
